@@ -9,7 +9,7 @@ from .. import transforms as tf
 
 ID = "C09"
 MODULE = "LasioProofs.Props.C09"
-EXTRA_MODULES = ["LasioProofs.Props.C09Redelim", "LasioProofs.Props.C09RedelimFile"]
+EXTRA_MODULES = ["LasioProofs.Props.C09Redelim", "LasioProofs.Props.C09RedelimFile", "LasioProofs.Props.C09Compose"]
 RULE = ("(0) first, on every run, the inputs of the repaired defects: DLM COMMA rows `1,2,3` re-padded with blanks and back; a blank line "
         "inserted between two data rows of a file without ~C read with engine='normal'; a '#' comment containing a hyphen inserted into a data "
         "section whose every row has a date `2018-05-22`; 21 comment lines inserted at the start of ~A; a 14-curve WRAP=YES file re-wrapped at "
@@ -629,7 +629,7 @@ LEVEL_TEXT = ("Machine-checked Lean 4 theorems about the executable models of th
               "21-data-line sniffer sample, hyphen rule; engine may change numpy->normal), C09_rewrap, C09_skip_header, C09_header_padding "
               "(corollary of C04). Tie: Python transformation = Lean transformation on every case (tf.apply), whole-file model vs real read on "
               "base and transformed text (tf.read), and the property's oracle on the real code for both engines.")
-LEVEL_NOTE = ("Props/C09Redelim.lean: re-delimiting and TAB/COMMA re-padding of NUMERIC cells (NumCells/NumBody, SepsOK, FtStripOn/Converts as "
+LEVEL_NOTE = ("Props/C09Compose.lean: the COMPOSITION theorem over ALL transformations — OK' (= OK plus repadLine for TAB / COMMA on numeric cells), C09_step', C09_compose' / C09_compose_readModel'; with .redelim steps anywhere in the list: C09_compose_all (Base kept, parsed result equal up to the DLM item of ~Version (ParsedUpToDlm, an equivalence), steering delimiter = finalSteer, declared count unchanged, curves equal), C09_compose_all_no_redelim specialises to exact equality. Props/C09Redelim.lean: re-delimiting and TAB/COMMA re-padding of NUMERIC cells (NumCells/NumBody, SepsOK, FtStripOn/Converts as "
               "named hypotheses with counter-examples): line level (C09_redelim_line*), typed columns, window level (C09_redelim_engine, "
               "C09_redelim_sniff, C09_redelim_readData_* incl. the numpy engine), whole file for repadLine with TAB/COMMA "
               "(C09_repad_delimited_file, same conclusion as C09_step). Props/C09RedelimFile.lean: the WHOLE-FILE statement for .redelim "
